@@ -219,9 +219,14 @@ def play_session(binary, colour, seconds, rnd):
         got = read_until(mark, lambda t: "invalid input" in t or "error:" in t or "Enter your move:" in t or over(t), 120)
         chunk = buf[mark:]
         if not got:
-            # neither a refusal nor a prompt: the program hangs or died
-            events.append({"ev": "WatchEnd", "res": "error", "msg": "no reaction to a typed line within 120 s: " + chunk[-200:], "obs": obs})
-            break
+            # neither a refusal nor a prompt within the limit: on a loaded machine this cannot be told from a
+            # slow engine, and hangs are C07's business -- a tool problem here, never an alarm
+            p.kill()
+            p.wait()
+            if p.returncode is not None and ("panicked" in chunk or "overflow" in chunk):
+                events.append({"ev": "WatchEnd", "res": "error", "msg": "the program died after a typed line: " + chunk[-300:], "obs": obs})
+                break
+            raise ToolError("chess play did not react to a typed line within 120 s:\n" + chunk[-300:])
         turns, _ = cli.parse_watch(chunk)
         ev = {"ev": "Cli", "s": line, "chars": list(line), "obs": obs, "kind": "label", "f": 0, "t": 0}
         if re.match(r"^[a-h][1-8][a-h][1-8]$", line):
